@@ -369,6 +369,44 @@ func Lock(m Locker, site string) {
 	if pending {
 		pendingAdd(m, -1)
 	}
+	heldAdd(m, 1)
+}
+
+// heldL: mutexes acquired (and not yet released) by tasks of the current run. A mutex still in it when every task
+// has returned was LEAKED: nobody is left to release it and every later caller blocks for ever.
+var heldL []assoc
+
+//go:norace
+func heldAdd(m interface{}, d int) {
+	if active == nil {
+		return
+	}
+	i := find(heldL, m)
+	if i < 0 {
+		if d < 0 {
+			return
+		}
+		heldL = append(heldL, assoc{key: m})
+		i = len(heldL) - 1
+	}
+	heldL[i].n += d
+	if heldL[i].n < 0 {
+		heldL[i].n = 0
+	}
+}
+
+// HeldLocks returns the lockers that tasks of the finished run acquired more often than they released them
+// (write locks as Locker; read locks count too). Call it after Run has returned.
+//
+//go:norace
+func HeldLocks() []interface{} {
+	var out []interface{}
+	for i := range heldL {
+		if heldL[i].n > 0 {
+			out = append(out, heldL[i].key)
+		}
+	}
+	return out
 }
 
 // Scheduler state touched by tasks must not live in Go maps: the runtime
@@ -444,6 +482,7 @@ func Unlock(m Locker, site string) {
 	if t == nil {
 		return
 	}
+	heldAdd(m, -1)
 	unblock(m)
 	handOff(t, site)
 }
@@ -465,6 +504,7 @@ func RLock(m RLocker, site string) {
 		t.blocked = m
 		handOff(t, site)
 	}
+	heldAdd(m, 1)
 }
 
 //go:norace
@@ -474,6 +514,7 @@ func RUnlock(m RLocker, site string) {
 	if t == nil {
 		return
 	}
+	heldAdd(m, -1)
 	unblock(m)
 	if t.abort {
 		return
@@ -486,13 +527,21 @@ func RUnlock(m RLocker, site string) {
 //go:norace
 func TryLock(m Locker, site string) bool {
 	Yield(site)
-	return m.TryLock()
+	ok := m.TryLock()
+	if ok && me() != nil {
+		heldAdd(m, 1)
+	}
+	return ok
 }
 
 //go:norace
 func TryRLock(m RLocker, site string) bool {
 	Yield(site)
-	return m.TryRLock()
+	ok := m.TryRLock()
+	if ok && me() != nil {
+		heldAdd(m, 1)
+	}
+	return ok
 }
 
 //go:norace
@@ -626,6 +675,7 @@ func (s *Sim) Run() error {
 	}
 	outsideMu.Lock() // barrier against a goroutine outside any run that is updating shadow state right now
 	active = s
+	heldL = nil
 	outsideMu.Unlock()
 	defer endRun()
 	startWatchdog()
